@@ -18,4 +18,4 @@ def run(ctx): return run_mser_property(ctx, ['bytes', 'rt', 'trunc'], oracle, 'r
 def search(ctx):
     c2 = Ctx(ctx.pid, 'quick', ctx.seed + 1, random.Random(ctx.seed + 99), ctx.drivers, True); c2.n = lambda q, t: 2560 if q > 10 else q
     return [v for v in run(c2)['violations'] if v[1]]
-def replay(ctx, rp): return not ctx.obligations_ok
+def replay(ctx, rp): return mser_replay(ctx, rp, ['bytes', 'rt', 'trunc'])
